@@ -39,7 +39,7 @@ def _record(task):
     """run the real library on a script with the event sink installed -> trace (list of per-line records)"""
     text, ctor = task
     lib = C._import_lib()
-    from simple_ddl_parser import _verif
+    _verif = C.hooks()
     ev = []
     _verif.sink = ev.append
     try:
